@@ -86,6 +86,15 @@ static void gen_ech(opcase_t *c, rng_t *r, int maxdim) {
   int m = gen_dim(r, maxdim), n = gen_dim(r, maxdim + maxdim / 2);
   if ((v == E_PLUQ || v == E_HYBRID || v == E__M4RI) && rng_chance(r, 1, GEN_AIM_BOOST ? 2 : 6)) aim_recursive_shape(r, maxdim, &m, &n);
   int full = rng_int(r, 0, 1), k = rng_int(r, 0, 10), heur = 0;
+  /* very wide and at most 3 rows: the automatic k starts at 1 and the cache correction (ncols > L3/3) takes one off - only affordable
+   * for the smallest cache triple (21 846 columns); always with automatic k */
+  int flat = (maxdim >= 200 && GC.l3 <= 131072 && rng_chance(r, 1, 60));
+  if (flat) {
+    m = rng_int(r, 1, 3);
+    n = (int)(GC.l3 / 3) + rng_int(r, 1, 3000);
+    k = 0;
+    hx_tag("ech_flat_beyond_l3");
+  }
   double thr = 1.0;
   char d[96];
   int kind;
